@@ -540,6 +540,8 @@ class Executor:
                     build(v, p)
                 elif isinstance(v, str) and v.startswith("->"):
                     links.append((p, v[2:]))
+                elif isinstance(v, str) and v.startswith("=>"):
+                    hard.append((p, v[2:]))        # a second name for an existing file (target: path from the tree's root)
                 elif isinstance(v, str) and v.startswith("@"):
                     with open(p, "wb") as fh:
                         fh.write(self.store.data(v[1:]))
@@ -547,7 +549,10 @@ class Executor:
                     with open(p, "wb") as fh:
                         fh.write((v or "").encode("utf-8", "surrogateescape"))
         links = []
+        hard = []
         build(tree, self.scratch)
+        for p, target in hard:
+            os.link(os.path.join(self.scratch, target), p)
         for p, target in links:        # symbolic links last (their targets exist by then); target relative to the link's directory
             os.symlink(target, p)
 
